@@ -25,6 +25,8 @@ import types
 
 from hypothesis import strategies as st
 
+from . import gen
+
 # importable modules holding generated classes (short names a path test may mistake for part of
 # another name: "main" and "a" are substrings of "__main__"), and the local table
 MODULES = ["vgen", "vgen.sub.deep", "LOCAL", "main", "a", "vgen"]
@@ -45,10 +47,10 @@ EXTRA_SOURCE = {
 
 IDENT_POOL = ["a", "b", "c", "x", "y", "z", "k1", "k2", "foo", "bar", "id", "n0", "v", "w", "q9", "abc", "name", "val", "m", "t7"]
 idents = st.sampled_from(IDENT_POOL)
-prims = st.one_of(
+prims = gen.pick(
     st.none(), st.booleans(), st.integers(-2 ** 60, 2 ** 60), st.sampled_from([0, 1, -1, 0.0, -0.0, 1.5, 1e308, "", "é", float("inf"), float("-inf")]),
     st.floats(allow_nan=False, allow_infinity=False), st.text("abcxyzé €", max_size=4).map(lambda s: "v:" + s))
-plain_json = st.recursive(prims, lambda c: st.one_of(st.lists(c, max_size=3), st.dictionaries(idents, c, max_size=3)), max_leaves=5)
+plain_json = st.recursive(prims, lambda c: gen.pick(st.lists(c, max_size=3), st.dictionaries(idents, c, max_size=3)), max_leaves=5)
 SPECIAL_DECIMALS = ["-0", "1E+400", "sNaN", "0.10", "NaN", "-Infinity", "Infinity", "-NaN123", "1E-400", "0E+3"]
 
 
